@@ -76,6 +76,9 @@ def cases(tier, seed):
         out.append(dict(fam="device", holes=1, terminals=1, probes=1, mesh=1, save_mesh=1, route=route, layer=lay))
     for m in ("G2", "G3", "G7s", "tiny"):
         out.append(dict(fam="mesh", mesh=m))
+    for m, hist in itertools.product(("G2", "G3") if tier == "quick" else ("G1", "G2", "G3", "G5", "G7"),
+                                     ("translated_inplace", "translated_twice", "translated_copy", "inside_translation_context", "after_translation_context")):
+        out.append(dict(fam="mesh", mesh=m, history=hist))
     for k, vs in OPTION_VARIANTS.items():
         for i in range(len(vs)):
             out.append(dict(fam="options", fields=[[k, i]]))
@@ -290,7 +293,29 @@ def run_mesh(case):
 
     res = CaseResult()
     res.key = case_key(case)
-    mesh, _ = c10.get_mesh(case["mesh"])
+    if case.get("history"):
+        # the mesh of a device that has a history: moved in place (once, twice, inside a translation context), copied and moved
+        from .. import zoo
+
+        dev = zoo.device(case["mesh"], memo=False)
+        ctx = None
+        if case["history"] == "translated_inplace":
+            dev.translate(dx=1.3, dy=-0.45, inplace=True)
+        elif case["history"] == "translated_twice":
+            dev.translate(dx=1.3, dy=-0.45, inplace=True)
+            dev.translate(dx=-0.2, dy=0.7, inplace=True)
+        elif case["history"] == "translated_copy":
+            dev = dev.copy(with_mesh=True)
+            dev.translate(dx=1.3, dy=-0.45, inplace=True)
+        elif case["history"] == "inside_translation_context":
+            ctx = dev.translation(0.9, 0.35)
+            ctx.__enter__()
+        elif case["history"] == "after_translation_context":
+            with dev.translation(0.9, 0.35):
+                pass
+        mesh = dev.mesh
+    else:
+        mesh, _ = c10.get_mesh(case["mesh"])
     with h5py.File("m.h5", "w") as f:
         mesh.to_hdf5(f.create_group("full"))
         mesh.to_hdf5(f.create_group("small"), compress=True)
